@@ -78,8 +78,24 @@ def vunit_case(rng):
     return text
 
 
+def grammar_case(rng):
+    """A well-formed library from the grammar-directed generator (every production the parser supports), so that the
+    analyzer and the renderer are driven over the whole accepted language, not only over what survives mutation."""
+    import gen
+    import spell
+    g = gen.Gen(rng, depth=rng.randint(1, 4))
+    try:
+        toks, _nf = g.library(rng.randint(1, 8))
+    except gen.Unavailable:
+        return "PROGRAM p END_PROGRAM"
+    return spell.respell(toks, rng, kwcase=rng.random() < 0.3, idcase=rng.random() < 0.3, trivia=rng.random() < 0.5,
+                         endif=True)
+
+
 def gen_case(rng, i):
-    k = i % 7
+    k = i % 8
+    if k == 7:
+        return {"gen": "grammar", "text": grammar_case(rng)}
     if k == 6:
         return {"gen": "vunit", "text": vunit_case(rng)}
     if k == 5:
